@@ -249,6 +249,24 @@ def setField (f : String) (v : Val) : Val → R Val
   | .nil => .panic
   | _ => .stuck ("assign field " ++ f ++ " of non-record")
 
+/-- assignment to a field path `r.f1.f2…fn := v` of a record value -/
+def setPath : List String → Val → Val → R Val
+  | [], v, _ => .ok v
+  | f :: fs, v, r => do
+    let inner ← getField f r
+    let inner' ← setPath fs v inner
+    setField f inner' r
+
+/-- every record of the list gets the fields of `upd` (Go: `for _, p := range ps { p.f = v }` over a slice of POINTERS
+with loop-invariant right-hand sides) -/
+def setFieldsAll (upd : List (String × Val)) : List Val → R (List Val)
+  | [] => .ok []
+  | .struct fs :: rest => do
+    let rest' ← setFieldsAll upd rest
+    .ok (.struct (upd.foldl (fun acc kv => update kv.1 kv.2 acc) fs) :: rest')
+  | .nil :: _ => .panic
+  | _ :: _ => .stuck "field assignment on a non-record element"
+
 def zeroOf (ty : String) : Val :=
   if ty = "bool" then .bool false
   else if ty = "string" then .str ""
@@ -384,6 +402,11 @@ def builtin (f : String) (args : List Val) : Option (R Val) :=
         some (.ok (.list (xs.take a.toNat ++ ys.take (min (b - a).toNat ys.length) ++ xs.drop (a.toNat + min (b - a).toNat ys.length))))
       else some .panic
     | _ => some (.stuck "copy")
+  else if f = "setFieldsAll" then
+    match args with
+    | [.list xs, .struct upd] => some ((setFieldsAll upd xs).bind fun ys => .ok (.list ys))
+    | [.nil, _] => some (.ok .nil)          -- ranging over a nil slice
+    | _ => some (.stuck "setFieldsAll")
   else if f = "fmt.Sprintf" then
     -- the formatted text is not modelled: a string determined by the format (pure, no effect)
     match args with
@@ -622,6 +645,18 @@ def assignTo (ev : Expr → St → R (Val × St)) : Expr → Val → St → R St
         else .panic
       | .nil, .str _ => .panic      -- assignment to an entry of a nil map
       | _, _ => .stuck "index assignment"
+    | none => .stuck ("unbound " ++ x)
+  | .sel (.sel (.sel (.var x) g2) g) f, v, st =>
+    match st.env x with
+    | some r => do
+      let r' ← setPath [g2, g, f] v r
+      pure (st.set x r')
+    | none => .stuck ("unbound " ++ x)
+  | .sel (.sel (.sel (.sel (.var x) g3) g2) g) f, v, st =>
+    match st.env x with
+    | some r => do
+      let r' ← setPath [g3, g2, g, f] v r
+      pure (st.set x r')
     | none => .stuck ("unbound " ++ x)
   | _, _, _ => .stuck "unsupported l-value"
 
